@@ -3,12 +3,12 @@
    gen_templates (Gen/Cypher.v) is REGENERATED on every run from every `session.run` site under fim/:
    one template (Lit text | Hole var kind, keyword names) per site and variant.
 
-   Full statement (FALSE of the current code, see C19_all_operations_refuted):
-     forall t, In t gen_templates -> forall e e', idents_ok (t_frags t) e ->
-       agree_on (ident_vars (t_frags t)) e e' ->
-       render (t_frags t) e = render (t_frags t) e' /\ wf_b (render (t_frags t) e) (t_params t) = true.
-   The `_partial` version excludes exactly the templates that belong to an operation registered as a known
-   finding AND contain a value-class hole (the defect's signature). *)
+   Full statement:  forall t, In t gen_templates -> conforms t     (conforms: Model/Cypher19.v).
+   It is FALSE of the code as long as an operation pastes a stored value unescaped; C19_all_operations_status
+   says which of the two holds for the regenerated table: either the full statement, or a concrete refutation of
+   the first excused template.  The `_partial` version excludes exactly the templates that belong to an operation
+   registered as a known finding (known_ops) AND contain a value-class hole (the defect's signature); with
+   known_ops empty it is the full statement. *)
 From Coq Require Import List NArith Bool String.
 Import ListNotations.
 From FIM Require Import Base.Str Model.Cypher19 Gen.Cypher Proofs.Cypher19Sound Proofs.Cypher19Ops.
@@ -19,19 +19,24 @@ Theorem C19_translated : gen_ok = true.
 Proof. exact gen_ok_true. Qed.
 Print Assumptions C19_translated.
 
-(* checker soundness, unbounded: an accepted template renders - for EVERY filling of its identifier holes
-   with identifiers - to one text that is well-formed; the text is a function of the identifiers only *)
-Theorem C19_sound : forall t, tmpl_ok t = true ->
-  forall e e', idents_ok (t_frags t) e -> agree_on (ident_vars (t_frags t)) e e' ->
-  render (t_frags t) e = render (t_frags t) e' /\
-  wf_b (render (t_frags t) e) (t_params t) = true /\ wf_b (render (t_frags t) e') (t_params t) = true.
-Proof. exact tmpl_ok_sound. Qed.
+(* checker soundness, unbounded: an accepted template renders - for EVERY filling of its identifier holes with
+   identifiers and EVERY two assignments of stored values - to well-formed statements on which the scanner ends
+   in the same state (the texts differ inside correctly escaped literals only), and to ONE text when the
+   template has no escaped literal *)
+Theorem C19_sound : forall t, tmpl_ok t = true -> conforms t.
+Proof. exact tmpl_ok_conforms. Qed.
 Print Assumptions C19_sound.
 
-Theorem C19_data_independent : forall t, tmpl_ok t = true ->
+Theorem C19_data_independent : forall t, tmpl_ok t = true -> has_esc_hole (t_frags t) = false ->
   forall e e', agree_on (ident_vars (t_frags t)) e e' -> render (t_frags t) e = render (t_frags t) e'.
 Proof. exact tmpl_ok_data_independent. Qed.
 Print Assumptions C19_data_independent.
+
+Theorem C19_structure_independent : forall t, tmpl_ok t = true ->
+  forall e e', idents_ok (t_frags t) e -> idents_ok (t_frags t) e' ->
+  scan init (render (t_frags t) e) = scan init (render (t_frags t) e').
+Proof. exact tmpl_ok_structure_independent. Qed.
+Print Assumptions C19_structure_independent.
 
 Theorem C19_well_formed : forall t, tmpl_ok t = true ->
   forall e, idents_ok (t_frags t) e -> wf_b (render (t_frags t) e) (t_params t) = true.
@@ -47,11 +52,7 @@ Proof. exact wf_b_inv. Qed.
 Print Assumptions C19_well_formed_means.
 
 (* every operation of the backend (every regenerated template), except the known findings *)
-Theorem C19_all_operations_partial :
-  forall t, In t gen_templates -> excused t = false ->
-  forall e e', idents_ok (t_frags t) e -> agree_on (ident_vars (t_frags t)) e e' ->
-  render (t_frags t) e = render (t_frags t) e' /\
-  wf_b (render (t_frags t) e) (t_params t) = true /\ wf_b (render (t_frags t) e') (t_params t) = true.
+Theorem C19_all_operations_partial : forall t, In t gen_templates -> excused t = false -> conforms t.
 Proof. exact all_ops_partial. Qed.
 Print Assumptions C19_all_operations_partial.
 
@@ -60,14 +61,15 @@ Theorem C19_all_operations_checked_partial :
 Proof. exact all_ops_partial_b. Qed.
 Print Assumptions C19_all_operations_checked_partial.
 
-(* the full statement is false of the current code: some operation pastes a stored value into the text,
-   and a value with a quote makes the statement ill-formed *)
-Theorem C19_all_operations_refuted :
-  exists t e e', In t gen_templates /\ idents_ok (t_frags t) e /\ agree_on (ident_vars (t_frags t)) e e' /\
-                 render (t_frags t) e <> render (t_frags t) e' /\
-                 wf_b (render (t_frags t) e') (t_params t) = false.
-Proof. exact all_ops_refuted. Qed.
-Print Assumptions C19_all_operations_refuted.
+(* the full statement: it holds for the regenerated table, or the first excused template is refuted by a value
+   with a quote (different text for the same identifiers, and an ill-formed statement) *)
+Theorem C19_all_operations_status :
+  match find excused gen_templates with
+  | Some t => In t gen_templates /\ excused t = true /\ refuted_by_value t
+  | None => forall t, In t gen_templates -> conforms t
+  end.
+Proof. exact all_ops_status. Qed.
+Print Assumptions C19_all_operations_status.
 
 (* the excuse list is tight: every excused operation really has a template with a value-class hole *)
 Theorem C19_known_findings_tight :
@@ -88,6 +90,22 @@ Theorem C19_escaped_literal : forall pre post ps v v' s,
   wf_b (pre ++ quoted_literal v ++ post) ps = wf_b (pre ++ quoted_literal v' ++ post) ps.
 Proof. exact escaped_literal_wf. Qed.
 Print Assumptions C19_escaped_literal.
+
+(* ... generalised to nesting: what the reader of a literal gets back from text escaped d times is the text *)
+Theorem C19_unescape_escape : forall d v, unesc_n d (esc_n d v) = v.
+Proof. exact unesc_esc_n. Qed.
+Print Assumptions C19_unescape_escape.
+
+(* a statement pasted as an escaped literal into another one (the APOC export's inner statement) is a template
+   of the table itself - so it is covered by C19_all_operations_* - and for every environment the parent's text
+   contains exactly the escape of the nested statement's text *)
+Theorem C19_nested_statements :
+  forall p, In p gen_nested ->
+  exists tn tp, find_by_id gen_templates (fst p) = Some tn /\ find_by_id gen_templates (snd p) = Some tp /\
+    forall e, idents_ok (t_frags tn) e ->
+    exists a b, render (t_frags tp) e = a ++ esc_q (render (t_frags tn) e) ++ b.
+Proof. exact nested_denote. Qed.
+Print Assumptions C19_nested_statements.
 
 (* ---- non-vacuity ------------------------------------------------------------------------------ *)
 (* node_exists as it is now: accepted, and for the label NetworkNode the text is the expected one; the same
@@ -114,6 +132,20 @@ Example C19_nonvacuous_rejections :
   wf_b (S"MATCH (r:GraphNode {GraphID: $graphId}) SET r+= $props RETURN properties(r)") [S"graphId"; S"props"] = true /\
   wf_b (S"MATCH (n {Name: 'it's'}) RETURN n") [] = false /\
   tmpl_ok (mk_tmpl 0 [] [Lit (S"MATCH (n {GraphID: """); Hole 0 HValue; Lit (S"""}) RETURN n")] [] true) = false.
+Proof. vm_compute. repeat split. Qed.
+
+(* the repaired serialize_graph (proposed_fixes/C19-2): the graph id escaped twice inside the inner statement
+   inside the outer literal - accepted; for an id made of a, a double quote, a single quote and a backslash both
+   levels read back what was written *)
+Example C19_nonvacuous_nested_escape :
+  let inner := [Lit (S"match(n:GraphNode {GraphID: """); Hole 0 (HEsc 1); Lit (S"""}) return n")] in
+  let outer := [Lit (S"with '")] ++ esc_frags inner ++ [Lit (S"' as query CALL apoc.export.graphml.query(query, null, {stream: true}) YIELD data RETURN data")] in
+  let e := env_of_list [S"a""'\"] in
+  tmpl_ok (mk_tmpl 0 [] inner [] true) = true /\ tmpl_ok (mk_tmpl 1 [] outer [] true) = true /\
+  nested_in inner outer = true /\ has_esc_hole outer = true /\
+  render inner e = S"match(n:GraphNode {GraphID: ""a\""\'\\""}) return n" /\
+  unesc (esc_q (render inner e)) = render inner e /\
+  wf_b (render outer e) [] = true /\ wf_b (render inner e) [] = true.
 Proof. vm_compute. repeat split. Qed.
 
 Example C19_nonvacuous_escaped_literal :
